@@ -2,6 +2,7 @@
 character-class algebra.  The patterns of this crate are literals, classes,
 small alternations and `+ * ?` quantifiers; anything else is reported as
 unsupported (the caller fails closed)."""
+import re
 
 MAXCP = 0x10FFFF
 
@@ -169,7 +170,26 @@ def parse_regex(src):
             elif q == "?":
                 a = ("rep", a, 0, 1)
             else:
-                raise Unsupported("counted repetition")
+                # counted repetition {m}, {m,}, {m,n}: m copies, then the rest optional (or a star)
+                num = ""
+                while peek() is not None and peek() != "}":
+                    num += take()
+                if peek() != "}":
+                    raise Unsupported("unterminated counted repetition")
+                take()
+                mm = re.fullmatch(r"(\d+)(,(\d*))?", num.strip())
+                if not mm:
+                    raise Unsupported("counted repetition {%s}" % num)
+                lo = int(mm.group(1))
+                hi = lo if mm.group(2) is None else (None if mm.group(3) == "" else int(mm.group(3)))
+                if lo > 64 or (hi is not None and (hi > 64 or hi < lo)):
+                    raise Unsupported("counted repetition {%s}" % num)
+                items = [a] * lo
+                if hi is None:
+                    items.append(("rep", a, 0, None))
+                else:
+                    items.extend([("rep", a, 0, 1)] * (hi - lo))
+                a = ("seq", items)
             if peek() == "?":
                 raise Unsupported("lazy quantifier")
         return a
@@ -312,6 +332,20 @@ def normalize(n):
             items.extend(y[1])
         else:
             items.append(y)
+    # x x* == x+ (and x{m,} written out): merge a factor with an adjacent unbounded repetition of the same factor
+    changed = True
+    while changed:
+        changed = False
+        for i in range(len(items) - 1):
+            a, b = items[i], items[i + 1]
+            if b[0] == "rep" and b[3] is None and b[1] == a:
+                items[i:i + 2] = [("rep", a, b[2] + 1, None)]
+                changed = True
+                break
+            if a[0] == "rep" and a[3] is None and a[1] == b:
+                items[i:i + 2] = [("rep", b, a[2] + 1, None)]
+                changed = True
+                break
     if len(items) == 1:
         return items[0]
     return ("seq", tuple(items))
